@@ -265,11 +265,14 @@ def addBlock (N0 : Node) (b : Block) : Res × Node :=
   let (hit, N) := touchBad { N0 with out := [] } b.id
   if hit = some b then (.cached, N)              -- only a cached block with the very same content short-circuits
   else if (N.blocks b.id).isSome then (.ok, N)                    -- IsConnectedBlock
-  else if (N.blocks b.parent).isNone then                         -- isOrphan → handleOrphan
+  else match N.blocks b.parent with
+  | none =>                                                       -- isOrphan → handleOrphan
     match addOrphan N b with
     | none => (.err, N)
     | some N1 => (.ok, { N1 with out := N1.out ++ [Msg.sync b.no] })
-  else
+  | some prev =>
+    if prev.no + 1 ≠ b.no then (.err, cacheBad N b)               -- errBlockInvalidNo (repo commit dd88a2dd)
+    else
     match isMainChain N b with
     | none => (.err, cacheBad N b)
     | some main =>
